@@ -162,10 +162,10 @@ def obligations(tier):
     for h in _H3:
         obs.append(Ob("history/" + "-".join(h), __name__, "mk", {"steps": list(h)}, timeout=1200, twins=_twins(h), group="k3"))
     # the ParameterController layer (own module: no priming / time stubs of this module are needed there)
-    obs.append(Ob("scope_history/steps1", "props.c07_scope", "mk_history", {"nsteps": 1}, timeout=900, twins=("end", "postponed"), group="scope"))
+    obs.append(Ob("scope_history/steps1", "props.c07_scope", "mk_history", {"nsteps": 1}, timeout=900, twins=("end", "postponed"), group="scope", grade="realised-input"))
     T = tier == "thorough"
     for m in range(1, 8):
-        obs.append(Ob(f"scope_history/steps2/first{m:03b}", "props.c07_scope", "mk_history", {"nsteps": 2, "nvalues": 3 if T else 2, "first_independent": T, "first_mask": m}, timeout=3600, twins=("end", "postponed"), group="scope"))
+        obs.append(Ob(f"scope_history/steps2/first{m:03b}", "props.c07_scope", "mk_history", {"nsteps": 2, "nvalues": 3 if T else 2, "first_independent": T, "first_mask": m}, timeout=3600, twins=("end", "postponed"), group="scope", grade="realised-input"))
     return obs
 
 
